@@ -4,6 +4,8 @@ E2: every shape x every centre (three input representations, fractional in-cell 
 Moore/von Neumann x return type x centre inclusion x entry point, compared with a filter of the world's own
 position table by Chebyshev / Manhattan distance.
 """
+import collections
+import enum
 import itertools
 import math
 import sys
@@ -54,12 +56,16 @@ def shapes(tier):
 
 def mk(model, kind, dims, flag='default'):
     # falsy wrap flags that are not the object False: still a non-wrapping world
-    kw = {} if flag == 'default' else {'wrap_env': {'none': None, 'zero': 0, 'np_false': np.False_}[flag]}
+    kw = {} if flag == 'default' else {'wrap_env': {'none': None, 'zero': 0, 'np_false': np.False_, 'switched_off': True}[flag]}
     if kind == 'discrete':
-        return Envs.DiscreteWorld(model, *dims, **kw)
-    if kind == 'line':
-        return Envs.LineWorld(model, dims[0], **kw)
-    return Envs.GridWorld(model, *dims, **kw)
+        world = Envs.DiscreteWorld(model, *dims, **kw)
+    elif kind == 'line':
+        world = Envs.LineWorld(model, dims[0], **kw)
+    else:
+        world = Envs.GridWorld(model, *dims, **kw)
+    if flag == 'switched_off':
+        world.wrap_env = False      # built as a torus, wrapping switched off afterwards: a world without wrapping from now on
+    return world
 
 
 def faults(world, ncells):
@@ -79,6 +85,9 @@ def faults(world, ncells):
         except Exception:      # noqa - refused, as expected; an accepted odd query is not judged here
             pass
     return n
+
+
+_Cell = collections.namedtuple('_Cell', 'x y z')
 
 
 def check_shape(case):
@@ -149,6 +158,9 @@ def check_shape(case):
                     exp_t = [p for p in ball if incl or p != centre]
                     exp_i = [index_of[p] for p in exp_t]
                     forms = [('id', cid), ('tuple', centre)]
+                    if case.get('leg') == 'flag' or case.get('faults'):
+                        # centres given as a named tuple (a tuple), cell ids given as an IntEnum member (an int)
+                        forms += [('namedtuple', _Cell(*centre)), ('enum_id', enum.IntEnum('CellId', {'here': cid}).here)]
                     # the world puts the resident somewhere else first; then its component is set to the centre by hand
                     if incl:
                         world.move_to(resident, *prev[:narg])
@@ -250,7 +262,14 @@ def two_callers_case(case):
         world = mk(new_model(seed=1), kind, dims)
         table = [tuple(p) for p in world.cells['pos']]
         fa, expected['a'] = _two_query(world, table, qa)
-        fb, expected['b'] = _two_query(world, table, qb)
+        if case.get('world_b'):
+            # the second caller works on ANOTHER world of another shape (scratch state shared by all worlds of the process)
+            kind_b, dims_b = TWO_WORLDS[case['world_b']]
+            world_b = mk(new_model(seed=2), kind_b, dims_b)
+            table_b = [tuple(p) for p in world_b.cells['pos']]
+            fb, expected['b'] = _two_query(world_b, table_b, qb)
+        else:
+            fb, expected['b'] = _two_query(world, table, qb)
         return fa, fb
 
     def judge(k, box_a, box_b):
@@ -258,7 +277,7 @@ def two_callers_case(case):
             exp = expected['a' if who == 'first' else 'b']
             got = box.value
             if box.error is not None or not isinstance(got, list) or [_n(v) for v in got] != exp:
-                raise Violation(f'two callers on one {case["world"]} world: the {who} query {q} gave a wrong answer when the '
+                raise Violation(f'two callers on {"one " + case["world"] + " world" if not case.get("world_b") else "the worlds " + case["world"] + " and " + case["world_b"]}: the {who} query {q} gave a wrong answer when the '
                                 f'second query {qb} cut into the first {qa} at line event {k}', expected=exp,
                                 observed=repr(box.error) if box.error is not None else got)
     n = 0
@@ -329,7 +348,7 @@ def run(ctx):
     extra += [dict(c, leg='sorted', sorted=True) for c in cases if c['leg'] == 'shape' and
               c['dims'] in ([3, 2, 2], [0, 3, 2], [4], [4, 4], [3, 2], [2, 3, 3])]
     extra += [dict(c, leg='flag', flag=f) for c in cases if c['leg'] == 'shape' and
-              (c['dims'] in ([3, 2, 2], [0, 3, 2], [3], [4, 4], [3, 2])) for f in ('none', 'zero', 'np_false')]
+              (c['dims'] in ([3, 2, 2], [0, 3, 2], [3], [4, 4], [3, 2])) for f in ('none', 'zero', 'np_false', 'switched_off')]
     cases += extra
     if ctx.small:
         cases = [c for c in cases if c['leg'] in ('shape', 'faults') and max(c['dims']) <= 2]
@@ -341,6 +360,9 @@ def run(ctx):
     if not ctx.violations and not ctx.small:
         pairs = [(0, 1), (1, 0), (2, 3), (3, 2), (4, 5), (0, 0), (1, 5), (4, 2)]
         two = [{'leg': 'two_callers', 'world': wn, 'a': a, 'b': b} for wn in TWO_WORLDS for a, b in pairs]
+        two += [{'leg': 'two_callers', 'world': wa, 'world_b': wb, 'a': a, 'b': b}
+                for wa, wb in (('grid4x3', 'disc3x2x2'), ('disc3x2x2', 'line5'), ('line5', 'grid4x3'), ('disc3x2x2', 'grid4x3'))
+                for a, b in ((0, 1), (1, 0), (2, 3), (4, 5), (0, 0))]
         par.pmap(ctx, two_callers_fn, two, procs=ctx.procs)
         ctx.leg('two_callers', pairs=len(two), note='one preemption at every library line of the first query (E5)')
 
